@@ -461,6 +461,13 @@ def agent_stop_monitor(c):
         return "the forked child of a step survived the stop request (signal not sent to the process group)"
     if c["sub"] == "group" and c["stop_to_end_ms"] > 2500:
         return "a forking step took %d ms to end after the stop request" % c["stop_to_end_ms"]
+    if c["sub"] == "orphan" and c["stop_to_end_ms"] > 2500:
+        return ("a step whose shell had exited while its background child still held the step's output was not ended by the "
+                "stop request: the run ended %d ms after it (the child's own end: %d s; MaxCleanUpTime %d s) - the signal, its "
+                "re-sends and the SIGKILL escalation did not reach the process group"
+                % (c["stop_to_end_ms"], c["sleep_s"], c["max_cleanup_s"]))
+    if c["sub"] == "orphan" and c["child_alive"]:
+        return "the background child of a step whose shell had already exited survived the stop request"
     if c["sub"] == "killbeforerun" and (c["stop_to_end_ms"] > 1500 or not c["err"]):
         return ("the command executor lost a signal that arrived before its process existed: Run took %d ms (error %r)"
                 % (c["stop_to_end_ms"], c["err"]))
@@ -549,8 +556,8 @@ def run_family2(ctx, pid, replay_cases=None):
         "Sched model (coq/Sched/Model.v): goroutine scheduling = arbitrary interleaving of the mutex-delimited sections of "
         "scheduler.go/node.go; Signal = flag + one atomic section per node; node teardown does not fail; the executor refuses an "
         "expired context (as os/exec does) - encoded in the guards of WExecStart/HStart",
-        "theorem premises: donech = true (Schedule is given a done channel, as agent.go always does) and norepeat for the outcome "
-        "theorems; the stop theorems (no new start, signal reaches) hold for every configuration",
+        "theorem premises: norepeat for the outcome theorems (no premise about the done channel since fix 614b59e); the stop "
+        "theorems (no new start, signal reaches) hold for every configuration",
         "scripted executor `verifscript` stands for the command executor: it ends on Kill unless scripted to ignore the signal, "
         "loses a Kill that arrives before its Run has started (command.go:68-75), honours its context",
         "wall-clock bounds (MaxCleanUpTime) are observed with tolerance, never proved",
